@@ -795,7 +795,7 @@ fn c05_next_seq_lagging_sidecar() {
 // truth-replay path over a real 3-frame history [created, message a, message b] with symbolic increasing seqs.
 // The cut-point instance doubles as C04(c)/C09: the truth path must give the same cut points as the reference.
 // ---------------------------------------------------------------------------------------------------------
-fn c02_log_unreachable(_this: &EventLog, _event: &Event) -> io::Result<()> {
+fn stub_log_append_unreachable(_this: &EventLog, _event: &Event) -> io::Result<()> {
     assert!(false, "a read-only / no-op capability wrote to the truth log");
     Ok(())
 }
@@ -820,7 +820,7 @@ macro_rules! c02_readonly {
         #[kani::stub(alloc::string::ToString::to_string, stub_to_string_empty)]
         #[kani::stub(ContinuityStore::get, stub_get_some)]
         #[kani::stub(ContinuityStore::replay_events, env_replay)]
-        #[kani::stub(rip_log::EventLog::append, c02_log_unreachable)]
+        #[kani::stub(rip_log::EventLog::append, stub_log_append_unreachable)]
         #[kani::stub(ContinuityStreamCache::append_best_effort, env_cache_append_noop)]
         #[kani::stub(broadcast::Sender::send, env_send_noop)]
         #[kani::stub(ContinuityStreamCache::scan_tail, stub_scan_none)]
